@@ -190,6 +190,17 @@ def image(truth, level, t0_ms=45296789, dt_ms=1, style=None, seed=0):
     _put(h, IMG_FD["number_of_lines_per_dataset"], n_lines)
     _put(h, IMG_FD["number_of_data_groups_per_line"], n_px)
     _putl(h, IMG_FD["sar_data_format_type_code"], code)
+    # the remaining descriptor fields as real products carry them (consistent with the geometry)
+    for field, value in (((216, 4), 32 if level == "1.1" else 16), ((220, 4), 2 if level == "1.1" else 1),
+                         ((224, 4), bpp), ((232, 4), 1), ((244, 4), 0), ((256, 4), 0),
+                         ((260, 4), 0), ((264, 4), 0), ((272, 2), 1), ((274, 2), 1),
+                         ((276, 4), prefix), ((280, 8), n_px * bpp), ((288, 4), 0),
+                         ((432, 4), 0), ((436, 4), 0)):
+        _put(h, field, value)
+    _putl(h, (268, 4), "BSQ")
+    _putl(h, (400, 28), "COMPLEX REAL*4" if level == "1.1" else "UNSIGNED INTEGER*2")
+    if level != "1.1" and (style or {}).get("max_range", True):
+        _put(h, (440, 8), 65535)
     out = [bytes(h)]
     extents = []
     pos = 720
@@ -455,6 +466,7 @@ def gen_plan(rng, max_lines=40, max_pixels=32, max_images=8, level=None, big=Fal
         "period": rng.choice([1, 2, 3, 4, 8]),
         "line_numbers": rng.choice(["normal"] * 6 + ["descending", "restart", "offset", "random"]),
         "dates": rng.choice(["normal"] * 5 + ["filler-first", "filler-some"]),
+        "max_range": rng.random() < 0.7,
     }
     # acquisition time base: mostly mid-day, sometimes crossing midnight inside the image
     n_max = max(im["lines"] for im in images)
